@@ -1210,6 +1210,10 @@ class Connection(object):
         while True:
             if self._is_checksumming_enabled and self._io_buffer.readable_io_bytes():
                 self._process_segment_buffer()
+                if self.is_defunct:
+                    # _process_segment_buffer reports errors (e.g. a CRC mismatch) by defuncting
+                    # the connection: nothing buffered after that point can be trusted
+                    return
                 self._io_buffer.reset_io_buffer()
 
             if self._is_checksumming_enabled and not self._io_buffer.has_consumed_segment:
@@ -1219,6 +1223,8 @@ class Connection(object):
 
             if not self._current_frame:
                 pos = self._read_frame_header()
+                if self.is_defunct:
+                    return
             else:
                 pos = self._io_buffer.readable_cql_frame_bytes()
 
